@@ -88,16 +88,19 @@ Print Assumptions c01_holds_when_fresh.
 
 (** ---- every configuration ---------------------------------------------------------
     [handle_data c over_quota w rs p size clk]: handleDATA under configuration
-    [c] (default folder, max_size, quota_enabled); [over_quota] is the verdict of
-    CheckQuota per recipient (quota_limit against the usage in the databases);
-    [rs] are the recipients accepted at RCPT time (max_recipients, allowed_domains
-    and reject_unknown_user only decide membership in [rs]). *)
+    [c] (default folder, max_size, quota_enabled); [over_quota r] = "CheckRecipientQuota
+    refuses r" (quota_limit against the usage of r's store when the message
+    arrives); [rs] are the recipients accepted at RCPT time (max_recipients,
+    allowed_domains and reject_unknown_user only decide membership in [rs]).
+    Over max_size: 552 for every recipient.  Quota enabled: an over-quota
+    recipient is left out of the deliveries and answered 552 in its position
+    (raven 57171c2) — a refusal: no promise made, nothing may be filed. *)
 
-(** after every history, under every configuration, whatever CheckQuota says:
-    over the size limit every recipient is refused (552) and nothing changes;
-    otherwise the property holds outside the one latent class *)
+(** after every history, under every configuration and every quota verdict:
+    outside the one latent class (a DELIVERED position answered from another
+    attempt's result) the property holds *)
 Theorem c01_any_configuration : forall roles h c over_quota rs p size clk,
-  (c_max_size c <? size = true \/ classify (wrun h (w0 roles)) (c_folder c) rs p clk = None) ->
+  classify_cfg c over_quota (wrun h (w0 roles)) rs p size clk = None ->
   spec_C01_cfg c over_quota (wrun h (w0 roles)) rs p size clk.
 Proof. exact c01_any_configuration_hist_l. Qed.
 Print Assumptions c01_any_configuration.
@@ -108,13 +111,42 @@ Theorem c01_any_configuration_fresh : forall c over_quota w rs p size clk,
 Proof. exact c01_any_configuration_fresh_l. Qed.
 Print Assumptions c01_any_configuration_fresh.
 
-(** the verdict of the quota check influences neither the replies nor any
-    store (the code computes and logs it): whoever makes it count must make
-    the REPLY depend on it too *)
-Theorem c01_quota_verdict_irrelevant : forall c oq oq' w rs p size clk,
-  handle_data c oq w rs p size clk = handle_data c oq' w rs p size clk.
-Proof. exact quota_verdict_irrelevant. Qed.
-Print Assumptions c01_quota_verdict_irrelevant.
+(** an over-quota recipient gets 552 in its own position and its position
+    does nothing *)
+Theorem c01_over_quota_refused : forall c oq w rs p size clk,
+  c_max_size c <? size = false -> p_ok p = true ->
+  let '(_, replies, atts) := handle_data c oq w rs p size clk in
+  Forall2 (fun r c' => skipped c oq r = true -> c' = R552) rs replies /\
+  Forall (fun a => skipped c oq (a_rcpt a) = true -> a_before a = a_after a /\ a_ok a = false) atts.
+Proof. exact over_quota_refused. Qed.
+Print Assumptions c01_over_quota_refused.
+
+(** the loop told per position IS DeliverToMultipleRecipients on the filtered
+    list: same final world, same delivery attempts *)
+Theorem c01_deliveries_are_filtered_list : forall skip folder p clk rs w i,
+  fst (deliver_all_q skip w folder rs p clk i) = fst (deliver_all w folder (filter (fun r => negb (skip r)) rs) p clk i) /\
+  filter (fun a => negb (skip (a_rcpt a))) (snd (deliver_all_q skip w folder rs p clk i))
+    = snd (deliver_all w folder (filter (fun r => negb (skip r)) rs) p clk i).
+Proof. exact deliver_all_q_filter. Qed.
+Print Assumptions c01_deliveries_are_filtered_list.
+
+(** with quota off (or nobody over quota) and the size within the limit,
+    handleDATA is [lmtp_data] of the theorems above *)
+Theorem c01_no_quota_is_lmtp_data : forall c oq w rs p size clk,
+  (forall r, skipped c oq r = false) -> c_max_size c <? size = false ->
+  handle_data c oq w rs p size clk = lmtp_data w (c_folder c) rs p clk.
+Proof. exact handle_data_no_quota. Qed.
+Print Assumptions c01_no_quota_is_lmtp_data.
+
+(** regression (seeded C01-2 / the behaviour before 57171c2): <u> over quota, <v>
+    not: 552 for u with nothing filed, 250 for v with one message *)
+Example c01_over_quota_example :
+  let c := mkCfg INBOX 1000 true in
+  let oq := fun r => str_eqb r U1 in
+  classify_cfg c oq (w0 []) [U1; U2; U1] p_plain 100 clk0 = None /\
+  snd (fst (handle_data c oq (w0 []) [U1; U2; U1] p_plain 100 clk0)) = [R552; R250; R552] /\
+  links_of (fst (fst (handle_data c oq (w0 []) [U1; U2; U1] p_plain 100 clk0))) KU1 = [].
+Proof. vm_compute. repeat split. Qed.
 
 (** acceptance is not withheld: when every store's UIDNEXT is above its UIDs
     (e.g. every store has a C03-clean history), a parsable message is accepted
